@@ -654,6 +654,18 @@ def verd1(P, R, L, rule="VERD-1", what=("table", "memtable", "version", "dbget")
                 for t in tests:
                     for e in t.err:
                         pass
+            # a verdict from a newer file stops the search
+            from ..err import is_drop_glue_switch
+            for s in sites:
+                bad = False
+                for t in result_tests(b, s.dest["l"]):
+                    if t.kind == "match" and is_drop_glue_switch(b, t.bb, {s.dest["l"]}):
+                        continue
+                    for e in t.ok:
+                        if s.bb in b.reachable(e):
+                            bad = True
+                R.check(rule, VERSION_GET + "|verdict-stops-search", not bad, s.where(),
+                        "after an Ok verdict (value or tombstone) from a table no older file is consulted", "")
             R.check(rule, VERSION_GET + "|miss-continues-with-next-file", okall, where(b),
                     "Err(KeyNotFound) from a table re-enters the file loop without writing the return place", "; ".join(det))
             # exhausted search: the only Ok written outside the loop carries None... (not found anywhere)
@@ -694,6 +706,18 @@ def verd1(P, R, L, rule="VERD-1", what=("table", "memtable", "version", "dbget")
             R.check("ORD-1", GET + "|newest-first", ok, a.where(),
                     "active memtable lookup dominates the immutable-memtable lookup and Version::get; the immutable memtable is never consulted after the version",
                     "lines active=%s imm=%s version=%s" % (a.line, i.line, v.line))
+            # a verdict (value or tombstone) from a newer source stops the search: no older source after an Ok edge
+            for c, later, nm in ((a, [i, v], "active"), (i, [v], "imm")):
+                from ..err import is_drop_glue_switch
+                tests = [t for t in result_tests(cb, c.dest["l"]) if not (t.kind == "match" and is_drop_glue_switch(cb, t.bb, {c.dest["l"]}))]
+                bad = []
+                for t in tests:
+                    for e in t.ok:
+                        r = cb.reachable(e)
+                        bad += [x.line for x in later if x.bb in r]
+                R.check(rule, GET + "|%s-verdict-stops-search" % nm, bool(tests) and not bad, c.where(),
+                        "after an Ok verdict (value or tombstone) from the %s memtable no older source is consulted" % nm,
+                        "older lookups reachable from the Ok edge at lines %s" % bad if bad else "")
             # a miss in a memtable continues with the next source
             for c, nxt, nm in ((a, [i.bb, v.bb], "active"), (i, [v.bb], "imm")):
                 tests = result_tests(cb, c.dest["l"])
@@ -1610,3 +1634,78 @@ def cache_eviction(P, R, L, rule="GRD-5"):
     R.check(rule, REMOVE_OBSOLETE + "|evict-before-delete", ok, where(b),
             "a table file queued for deletion is evicted from the table cache first (a reused file number must not serve a stale table)",
             "evictions %d" % len(ev))
+
+
+# ------------------------------------------------------------------------------------------- ERR-2 iterator status consulted
+GET_ERROR = "versioning::file_iterators::MergingIterator::get_error"
+
+
+def err2_iterator_status(P, R, L, rule="ERR-2"):
+    """The merging iterator stores child read errors (a table that cannot be opened looks like an empty input).
+    Before the results of a merge are installed, every path must consult MergingIterator::get_error."""
+    ct = P.body(COMPACT_TABLES)
+    if ct is None:
+        return R.missing_anchor(rule, COMPACT_TABLES)
+    R.analysed(ct)
+    inst = sites_reaching(P, ct, INSTALL)
+    merges = [u for (u, cb) in unlocked_closures(P, L, ct) if normal_sites(cb, "tables::table_builder::TableBuilder::add_entry")]
+    status = sites_reaching(P, ct, GET_ERROR)
+    status = [s for s in status if s not in merges]
+    if not inst or not merges:
+        return R.check(rule, COMPACT_TABLES + "|anchors", False, where(ct), "compact_tables runs a merge section and installs its results",
+                       "install sites %d merge sections %d" % (len(inst), len(merges)))
+    # the iterator exists only on the Ok edge of the merge section's result
+    starts = []
+    for m in merges:
+        for t in result_tests(ct, m.dest["l"]):
+            starts += t.ok
+    for i in inst:
+        ok = bool(status) and bool(starts) and all(ct.must_pass_fs(i.bb, through_nodes=[s.bb for s in status], start=st_) for st_ in starts)
+        R.check(rule, COMPACT_TABLES + "|iterator-status-before-install", ok, i.where(),
+                "every path from the end of the merge to install_compaction_results consults the merging iterator's stored error "
+                "(a compaction input that failed to open must not be treated as empty and deleted)",
+                "status sites at lines %s" % [s.line for s in status])
+    fin = P.body("compaction::state::CompactionState::finish_compaction_output_file")
+    if fin is not None:
+        R.analysed(fin)
+        ge = normal_sites(fin, GET_ERROR)
+        fz = sites_reaching(P, fin, "tables::table_builder::TableBuilder::finalize")
+        ok = bool(ge) and all(fin.must_pass(f.bb, through_nodes=[g.bb for g in ge]) for f in fz)
+        R.check(rule, fin.path + "|iterator-status-before-finalize", ok, where(fin),
+                "an output table is finalized only after the input iterator's stored error was consulted", "")
+
+
+# ------------------------------------------------------------------------------------------- GRD-10 closed-interval bounds
+def grd10_closed_intervals(P, R, L, rule="GRD-10"):
+    """File key ranges are closed intervals [smallest, largest]. Every ordering comparison between a user key X and a
+    file's bound user key must therefore be `X < smallest` / `X >= smallest` or `X > largest` / `X <= largest`
+    (a comparison and its complement); `X <= smallest`, `X > smallest`, `X >= largest`, `X < largest` put the
+    boundary key on the wrong side. Sibling sites agree on this everywhere in the crate (contradiction rule)."""
+    from ..rules import SWAP
+    UK = GET_USER_KEY
+    T = role.COLOUR_TRANSPARENT - {UK}
+    allowed = {"SMALL": {"lt", "ge"}, "LARGE": {"gt", "le"}}
+    n = 0
+    for p, b in sorted(P.bodies.items()):
+        cmps = [c for c in comparisons(b) if c.op not in ("eq", "ne")]
+        if not cmps:
+            continue
+        for c in cmps:
+            lu = any(o.kind == "call" and o.name == UK for o in origins(b, c.lhs, transparent=T))
+            ru = any(o.kind == "call" and o.name == UK for o in origins(b, c.rhs, transparent=T))
+            if not (lu or ru):
+                continue
+            lc, rc = role.colour(b, c.lhs), role.colour(b, c.rhs)
+            views = []
+            if rc in allowed:
+                views.append(c.op in allowed[rc])              # X = lhs, bound = rhs : lhs op rhs
+            if lc in allowed:
+                views.append(SWAP[c.op] in allowed[lc])        # X = rhs, bound = lhs : rhs swap(op) lhs
+            if not views:
+                continue
+            n += 1
+            R.analysed(b)
+            R.check(rule, "%s|bound-comparison" % p, any(views), "%s:%s" % (b.file, c.line),
+                    "a user key is compared with a file bound as a closed interval (X < smallest | X >= smallest | X > largest | X <= largest)",
+                    "`lhs %s rhs` with lhs colour %s, rhs colour %s" % (c.op, lc, rc))
+    R.floor(rule, "user-key vs file-bound comparisons", n, 11)
